@@ -660,6 +660,10 @@ def rule_alignspec(chk, prog, tier):
     NS = [0, 1, 2, 3, 4, 6, 8, 16, 24, 64, 4096, 2 ** 30, 2 ** 31, 2 ** 31 + 1, 2 ** 32, 2 ** 63]
     cases = [([('ICE', n)], n) for n in NS] + [([('TYPE', t)], t) for t in ('char', 'int', 'long', 'ldouble', 'S12', 'A3', 'S16')]
     cases += [([('ICE', a)], [('ICE', b)]) for a in (0, 4, 16) for b in (0, 8, 32)]
+    # the strictest of several specifiers wins whatever their form and order: expression then type, type then expression, two types
+    cases += [([('ICE', a)], [('TYPE', t)]) for a in (0, 2, 16) for t in ('char', 'int', 'S16')]
+    cases += [([('TYPE', t)], [('ICE', a)]) for a in (0, 2, 16) for t in ('char', 'int', 'S16')]
+    cases += [([('TYPE', t)], [('TYPE', t2)]) for t in ('char', 'long', 'S16') for t2 in ('char', 'int', 'ldouble')]
     for c in cases:
         specs = [c[0]] if not isinstance(c[1], list) else [c[0], c[1]]
         def runner(it):
